@@ -437,7 +437,8 @@ def filter_citations(citations: List[CitationBase]) -> List[CitationBase]:
 
         filtered_citations.append(citation)
 
-    return filtered_citations
+    # overlaps are resolved in full-span order; return in document order
+    return sorted(filtered_citations, key=lambda citation: citation.span())
 
 
 joke_cite: List[CitationBase] = [
